@@ -10,6 +10,7 @@ if REPO not in sys.path:
 #: concrete parameters of the current query (grid point); set by the driver
 P = json.loads(os.environ.get("VF_PARAMS", "{}"))
 MODE = os.environ.get("VF_MODE", "check")     # check | reach | replay
+REPLAY = MODE == "replay"     # harnesses guard note(...) with it: the arguments are only worth computing natively
 
 NOTES = {}
 
